@@ -49,9 +49,10 @@ def _inline_temps(f, expr, keep, depth=3):
 
         class T(ast.NodeTransformer):
             def visit_Name(self, node):
-                return copy.deepcopy(sub[node.id]) if node.id in sub else node
+                return ast.parse(unparse(sub[node.id]), mode="eval").body if node.id in sub else node
 
-        expr = T().visit(copy.deepcopy(expr))
+        # re-parse instead of deepcopy: engine nodes carry `_parent` links
+        expr = T().visit(ast.parse(unparse(expr), mode="eval").body)
     return expr
 
 
@@ -188,12 +189,17 @@ def r2(ctx):
 
     snodes = [n.id for n in g.nodes.values() if n.kind == "stmt" and isinstance(n.ast, (ast.Assign, ast.AugAssign))
               and root_attr(n.ast.targets[0] if isinstance(n.ast, ast.Assign) else n.ast.target) == "hardware_locations"]
-    tests = [n for n in g.nodes.values() if n.kind == "test" and "hardware_locations" in n.text(200) and isinstance(n.ast, ast.Compare) and isinstance(n.ast.ops[0], ast.In)]
+    from ..facts import edge_for, facts_at
+
+    def _has_entry(a, v):
+        return v and isinstance(a, ast.Compare) and len(a.ops) == 1 and isinstance(a.ops[0], ast.In) and "hardware_locations" in unparse(a.comparators[0])
+
+    tests = [n for n in g.nodes.values() if n.kind == "test" and n.ast is not None and edge_for(n.ast, _has_entry)]
     iters = [n.id for n in g.nodes.values() if n.kind == "iter"]
     probe = lambda n: "get_storage_usages" in n.text(600)  # noqa: E731
     for t in tests:
         esc = None
-        for b in g.real_succ(t.id, "t"):
+        for b in g.real_succ(t.id, edge_for(t.ast, _has_entry)):
             if b in snodes:
                 continue
             esc = esc or g.path(b, iters + [g.exit], avoid=snodes, kinds=ALL, exc_from=probe)
@@ -208,9 +214,8 @@ def r2(ctx):
     ctx.ob("R2", "release and reservation re-bind hardware for wrapped levels with the same binder", bool(b1) and bool(b2), func=f,
            node=b1[0] if b1 else f.node, instance="release:binder")
     # only locations that have a reservation entry are touched
-    guards = [n for n in f.body_nodes() if isinstance(n, ast.If) and "hardware_locations" in unparse(n.test) and isinstance(n.test, ast.Compare)
-              and isinstance(n.test.ops[0], ast.In)]
-    ctx.ob("R2", "release touches only locations with a reservation entry", bool(guards), func=f, node=guards[0] if guards else f.node,
+    guarded = bool(snodes) and all(any(_has_entry(a, v) for a, v in facts_at(g, i)) for i in snodes)
+    ctx.ob("R2", "release touches only locations with a reservation entry", guarded, func=f, node=g.nodes[snodes[0]].ast if snodes else f.node,
            instance="release:guard-in")
 
 
